@@ -1,7 +1,14 @@
 #!/opt/veriftools/pyvenv/bin/python
-import json,jsonschema,sys,glob
-jsonschema.validate(json.load(open('/verif/MANIFEST.json')),json.load(open('/root/.vp/MANIFEST.schema.json')))
+import json,jsonschema,sys,os
+m=json.load(open('/verif/MANIFEST.json'))
+jsonschema.validate(m,json.load(open('/root/.vp/MANIFEST.schema.json')))
 es=json.load(open('/root/.vp/EVIDENCE.schema.json'))
-for f in sorted(glob.glob('/verif/evidence/*.json')):
-    jsonschema.validate(json.load(open(f)),es); print('valid',f)
-print('manifest valid')
+bad=0
+for c in m['checks']:
+    f=c['evidence_file']
+    try:
+        jsonschema.validate(json.load(open(f)),es); print('valid',f)
+    except Exception as e:
+        bad+=1; print('INVALID',f,str(e)[:300])
+print('manifest valid; claimed', [c['property_id'] for c in m['checks']])
+sys.exit(1 if bad else 0)
